@@ -207,6 +207,7 @@ PROPS["C01"] = {
         R("write-paths", ".", "root", ["ZzC18ClientWriteRTP", "ZzC18StreamWriteRTP", "ZzC18SessionWriteRTP"], params={"GOSTUB": 1}, extras=_EXTRAS,
           quick_params={"P": 12, "MAXPS": 36}, thorough_params={"P": 40, "MAXPS": 80, "NR": 3}),
         R("udp-receive", ".", "root", ["ZzC01ClientUDPReceive"], params={"GOSTUB": 1}, extras=_EXTRAS, quick_params={"K": 4, "B": 4}, thorough_params={"K": 5, "B": 4, "P": 3}),
+        R("udp-receive-server", ".", "root", ["ZzC01ServerUDPReceive"], params={"GOSTUB": 1}, extras=_EXTRAS, quick_params={"K": 4, "B": 4}, thorough_params={"K": 5, "B": 4, "P": 3}),
         R("fast-unmarshal", ".", "root", ["ZzC01FastUnmarshal"], params={"GOSTUB": 1}, extras=_EXTRAS, flags={"concoff": True},
           quick_params={"P": 20}, thorough_params={"P": 28}),
     ],
@@ -291,7 +292,8 @@ PROPS["C12"] = {
 PROPS["C02"] = {
     "level_text": "Two sequential kernels on the real code: (1) ServerSession.handleRequestInner state guard: for every session state and every state-changing method the request is refused with ErrServerInvalidState (status >= 400, state untouched, application not called) exactly when (method, state) is outside the RFC 2326 table written in the harness; a request refused by validation or by the application leaves the state unchanged; a request from another connection than the pinned one is refused in every state. (2) ServerConn.handleRequestOuter: exactly one response is written per request for all eleven methods, with the request's CSeq echoed (symbolic value), 400 without CSeq.",
     "level_note": "Outside: request sequences (only one step from each constructed state), successful SETUP/PLAY/RECORD transitions through the stream/UDP plumbing, routing by Session header in Server.run (channels), timers, keep-alive, exactly-once session close. Goroutines/timers are not executed (GOSTUB).",
-    "runs": [R("state-guard", ".", "root", ["ZzC02StateGuard", "ZzC02HandlerRefuses", "ZzC02OneResponse"], params={"GOSTUB": 1}, extras=_EXTRAS, flags={"concoff": True})],
+    "runs": [R("state-guard", ".", "root", ["ZzC02StateGuard", "ZzC02HandlerRefuses", "ZzC02OneResponse"], params={"GOSTUB": 1}, extras=_EXTRAS, flags={"concoff": True}),
+             R("udp-keepalive", ".", "root", ["ZzC02UDPKeepAlive"], params={"GOSTUB": 1}, extras=_EXTRAS)],
 }
 
 # ---------------------------------------------------------------- C14
